@@ -407,22 +407,48 @@ pub struct SemCase {
     /// call the builder's stats() after this many operations (a public query that must leave hashes alone)
     #[serde(default)]
     pub stats_after: Option<u8>,
+    /// Some((total, seed)): the builder's vtree has `total` leaves (up to 120, same shape family) and the history's
+    /// variables are scattered among them: labels, vtree positions and the weight map go beyond 64 entries
+    #[serde(default)]
+    pub embed: Option<(u8, u64)>,
 }
 
 pub struct SemBuilder;
 
 fn sem_history<const P: u128>(case: &SemCase, exact: bool, st: &mut Stats) -> CaseResult {
     rsdd::verif_hooks::set_unique_table_capacity(case.table_cap.map(|c| c as usize));
-    let mut b = SemanticSddBuilder::<P>::new(case.vt.to_vtree());
+    let (vt, emb) = match case.embed {
+        Some((total, seed)) if case.vt.contiguous() => {
+            let (big, labels) = embed_vtree(&case.vt, total, seed);
+            (big, Some(labels))
+        }
+        _ => (case.vt.clone(), None),
+    };
+    let mut b = SemanticSddBuilder::<P>::new(vt.to_vtree());
     rsdd::verif_hooks::set_unique_table_capacity(None);
     if let Some(flag) = case.compression_flag {
         b.set_compression(flag);
         st.bump(if flag { "set_compression.true" } else { "set_compression.false" });
     }
     let b = b;
-    let shape = case.vt.shape();
-    let k = shape.leaves().len();
-    let mut run = SddRun::new(&b, shape.leaves());
+    let shape = vt.shape();
+    let k = case.vt.shape().leaves().len();
+    // oracle variable -> builder label
+    let labels: Vec<usize> = match &emb {
+        Some(l) => l.clone(),
+        None => {
+            let mut l = shape.leaves();
+            l.sort_unstable();
+            l
+        }
+    };
+    let mut run = match emb {
+        Some(l) => {
+            st.bump(if vt.k >= 65 { "embedded.leaves_65_120" } else { "embedded.leaves_9_64" });
+            SddRun::new_embedded(&b, l)
+        }
+        None => SddRun::new(&b, shape.leaves()),
+    };
     let name = format!("semantic-sdd-builder(GF({}))", P);
     for (i, op) in case.ops.iter().enumerate() {
         if case.stats_after.map(|k| k as usize == i).unwrap_or(false) {
@@ -454,9 +480,15 @@ fn sem_history<const P: u128>(case: &SemCase, exact: bool, st: &mut Stats) -> Ca
         .iter()
         .map(|c| c.iter().map(|(v, p)| ((*v as usize % k) as u8, *p)).collect())
         .collect();
-    let cc_obj = CnfCase { clauses }.to_rsdd();
-    // the compiler's input is the Cnf object (C15 owns Cnf::new)
-    let cc = CnfCase::read_back(&cc_obj);
+    // in the builder's label space
+    let cc_obj = CnfCase { clauses: clauses.iter().map(|c| c.iter().map(|(v, p)| (labels[*v as usize] as u8, *p)).collect()).collect() }.to_rsdd();
+    // the compiler's input is the Cnf object (C15 owns Cnf::new), read back into the oracle's variable space
+    let cc = {
+        let rb = CnfCase::read_back(&cc_obj);
+        CnfCase {
+            clauses: rb.clauses.iter().map(|c| c.iter().filter_map(|(l, p)| labels.iter().position(|x| *x == *l as usize).map(|i| (i as u8, *p))).collect()).collect(),
+        }
+    };
     let r = b.compile_cnf(&cc_obj);
     if exact {
         ensure!(
@@ -476,7 +508,18 @@ fn sem_history<const P: u128>(case: &SemCase, exact: bool, st: &mut Stats) -> Ca
     // for a fixed field and weight map a cached hash equals the recomputed one (the defining sum)
     if exact {
         for (i, (p, t)) in run.pool.iter().enumerate() {
-            let want = defining_sum::<P>(*t, crate::tt::NV.min(case.vt.to_vtree().num_vars()), b.map());
+            let want = {
+                let ops = Ops::<u128> { zero: 0, one: 1 % P, add: &|a, b| (a + b) % P, mul: &|a, b| mulmod(*a, *b, P) };
+                let w = |v: usize, bit: bool| -> u128 {
+                    let (l, h) = b.map().var_weight(VarLabel::new_usize(labels[v]));
+                    if bit {
+                        h.value()
+                    } else {
+                        l.value()
+                    }
+                };
+                brute_force(*t, &(0..labels.len()).collect::<Vec<_>>(), &w, &ops)
+            };
             let got = b.cached_semantic_hash(*p).value();
             ensure!(
                 got == want,
@@ -539,7 +582,7 @@ pub fn run_sem(case: &SemCase, st: &mut Stats) -> CaseResult {
 impl SubCheckT for SemBuilder {
     type Case = SemCase;
     const NAME: &'static str = "semantic_sdd_builder";
-    const RULE: &'static str = "SemanticSddBuilder over a random vtree (1..5 variables), with set_compression left alone / set to true / set to false, under <=30 operations from {literal, constant, not, and, or, condition, exists} plus compile_cnf (ite/iff/xor/compose are todo!() in that builder and outside the property): over GF(2^64-25) and over the exported 96-bit prime U128_LARGE_1 every returned SDD denotes the oracle function and eq(a,b) holds exactly when the truth tables are equal, for all pool pairs, the cached hash of every pool entry equals the defining sum, and a stats() call in the middle of the history changes nothing (the 32-bit primes are not used here: collisions are expected there by design). Non-trivial: >=4 and/or/exists/condition operations on >=3 variables";
+    const RULE: &'static str = "SemanticSddBuilder over a random vtree (1..5 variables; in one case of five these are scattered among the 9..120 leaves of a larger vtree of the same shape family, so that labels, vtree positions and the builder's weight map go beyond 64 entries), with set_compression left alone / set to true / set to false, under <=30 operations from {literal, constant, not, and, or, condition, exists} plus compile_cnf (ite/iff/xor/compose are todo!() in that builder and outside the property): over GF(2^64-25) and over the exported 96-bit prime U128_LARGE_1 every returned SDD denotes the oracle function and eq(a,b) holds exactly when the truth tables are equal, for all pool pairs, the cached hash of every pool entry equals the defining sum, and a stats() call in the middle of the history changes nothing (the 32-bit primes are not used here: collisions are expected there by design). Non-trivial: >=4 and/or/exists/condition operations on >=3 variables";
     fn cases(tier: Tier) -> u32 {
         tier.pick(6000, 80_000)
     }
@@ -551,14 +594,19 @@ impl SubCheckT for SemBuilder {
             prop_oneof![2 => Just(None), 5 => (1u16..=32).prop_map(Some)],
             prop_oneof![2 => Just(None), 2 => Just(Some(true)), 1 => Just(Some(false))],
             proptest::option::weighted(0.5, 0u8..30),
+            prop_oneof![
+                4 => Just(None),
+                1 => (prop_oneof![1 => 9u8..=64, 2 => 65u8..=120], any::<u64>()).prop_map(Some),
+            ],
         )
-            .prop_map(|(vt, ops, cnf, table_cap, compression_flag, stats_after)| SemCase {
+            .prop_map(|(vt, ops, cnf, table_cap, compression_flag, stats_after, embed)| SemCase {
                 vt,
                 ops,
                 cnf,
                 table_cap,
                 compression_flag,
                 stats_after,
+                embed,
             })
             .boxed()
     }
